@@ -193,6 +193,8 @@ def _run_case(case, acc):
         _case_coupled(case, acc)
     elif case['kind'] == 'arrow':
         _case_arrow(case, acc)
+    elif case['kind'] == 'hist':
+        _case_hist(case, acc)
     else:
         _case_child(case, acc)
 
@@ -1720,6 +1722,325 @@ def _case_arrow(case, acc):
                        'coloring_modes': list(on.get('colmodes', ())),
                        'computes': {k: v for k, v in m['tj_runs'].items()},
                        'pruned_by_solve_kind': {'%s:%s' % k: v for k, v in m['pruned_ctx'].items()}})
+
+
+# =====================================================================================================
+# family `hist`: histories on one Problem object (omv/gen/c24_hist.py)
+# =====================================================================================================
+HIST_TOL_VAL = 1e-9         # outputs: explicit formulas; cycle (|k m| < 0.5) by NLBGS/Newton with atol = rtol = 1e-12
+HIST_TOL_EXACT = 1e-9       # totals, direct / run-once stacks
+
+
+def _run_hist_twin(s, steps, norel):
+    import contextlib
+    import io
+    from omv.gen import c24_hist as H
+    out = {'exc': None, 'steps': None, 'nfail': None, 'pruned': (0, 0), 'active': None, 'calls': None,
+           'failures': []}
+    log = CallLog()
+    prob = None
+    with NoRelevance(norel), RelMon() as mon, SeedFailureMonitor() as fmon:
+        try:
+            prob = H.build_hist(s, hook=log)
+            with contextlib.redirect_stdout(io.StringIO()):
+                prob.setup(mode=s['mode'])
+                out['steps'], out['nfail'] = H.run_history(prob, s, steps, fmon)
+            out['failures'] = list(fmon.failures)
+            out['active'] = prob.model._relevance._active
+            names = [c['out'] for c in s['comps']] + list(s['xs'])
+            out['src2spec'] = {prob.model.get_source(n): n for n in names}
+        except Exception as e:
+            if os.environ.get('OMV_DEBUG'):
+                import traceback
+                traceback.print_exc()
+            out['exc'] = e
+        finally:
+            out['pruned'] = (mon.sys_pruned, mon.var_pruned)
+            out['calls'] = log
+            if prob is not None:
+                try:
+                    prob.cleanup()
+                except Exception:
+                    pass
+    return out
+
+
+def _hist_units(s):
+    from omv.gen import c24_hist as H
+    u = set()
+    for g in H.iter_groups(s):
+        if g.get('approx'):
+            u.add(('root-' if not g['name'] else 'group-') + g['approx']['method'])
+    for c in s['comps']:
+        if c['kind'] == 'el' and c['impl'] in ('fd', 'cs'):
+            u.add('comp-' + c['impl'])
+    return sorted(u)
+
+
+def _case_hist(case, acc):
+    from omv.gen import c24_hist as H
+    rng = random.Random(case['seed'])
+    cls = case['cls']
+    s = H.gen_hist_spec(rng, cls, opt=bool(case.get('opt')))
+    steps, info = H.gen_history(rng, s)
+    tags = H.hist_tags(s)
+    units = _hist_units(s)
+    iterative = any(g['ln'] in ('lnbgs', 'lnbj', 'krylov') for g in H.iter_groups(s))
+    tol_pair = TOL_ITER if iterative else HIST_TOL_EXACT
+    v0, _, _ = H.hist_eval(s, s['points'][0])
+    if max(float(np.max(np.abs(v))) for v in v0.values()) > 100.0:
+        acc.skip('ill-scaled')
+        return
+    on = _run_hist_twin(s, steps, norel=False)
+    off = _run_hist_twin(s, steps, norel=True)
+    if off['pruned'] != (0, 0) or (off['exc'] is None and off['active'] is not False):
+        acc.skip('HARNESS-disabled-twin-still-prunes')
+        return
+    acc.count('obs:twin-off-verified')
+    if isinstance(on['exc'], WorkBudgetExceeded):
+        acc.skip('work-budget-exceeded (nested iterative solvers looping to maxiter)')
+        return
+
+    fault_ctx = ['before-fault']
+
+    def KEY(what):
+        if cls == 'seq':
+            return 'seq:%s:approx=%s:mode=%s' % (what, '+'.join(units) or 'none', s['mode'])
+        return 'errpath:%s:%s:mode=%s' % (what, fault_ctx[0], s['mode'])
+    if off['exc'] is not None and on['exc'] is not None:
+        acc.skip('both-twins-raise' if type(off['exc']) is type(on['exc']) else 'both-twins-raise-differently')
+        if os.environ.get('OMV_DEBUG'):
+            print('both raise (setup)', case, tags, repr(on['exc'])[:300], file=sys.stderr)
+        return
+    if off['exc'] is not None:
+        acc.skip('only-disabled-twin-raises')
+        return
+    if on['exc'] is not None:
+        e = on['exc']
+        acc.viol(KEY(exc_key('raises-only-with-relevance', e)), '%s: %s [%s]' % (type(e).__name__, str(e)[:300],
+                                                                               ','.join(tags)), case)
+        return
+    bad = []            # (what, message)
+    pt = {'on': {k: np.array(v, float) for k, v in s['points'][0].items()},
+          'off': {k: np.array(v, float) for k, v in s['points'][0].items()}}
+    stop = None
+    n_tot = 0
+    after_fault = False
+    dep = H.hist_deps(s)
+    judged_steps = 0
+    for i, st in enumerate(steps):
+        a, b = on['steps'][i], off['steps'][i]
+        op = st['op']
+        ea = a['exc'] if isinstance(a, dict) and 'exc' in a else None
+        eb = b['exc'] if isinstance(b, dict) and 'exc' in b else None
+        if st.get('fault'):
+            fault_ctx[0] = 'fault=%s:in=%s' % (info['site'], info['api'])
+            after_fault = True
+            acc.count('cell:errpath-site=%s' % info['site'])
+            acc.count('cell:errpath-api=%s' % info['api'])
+            acc.count('cell:errpath-seedpos=%s' % info['seedpos'])
+            acc.count('cell:errpath-exc=%s' % info['exc'])
+            acc.count('cell:errpath-mode=%s' % s['mode'])
+            if isinstance(ea, WorkBudgetExceeded) or isinstance(eb, WorkBudgetExceeded):
+                stop = 'work-budget-exceeded (nested iterative solvers looping to maxiter)'
+                break
+            if ea is not None and eb is not None:
+                acc.count('obs:errpath-fault-raised-in-both-twins')
+                if info['site'] in ('ln-maxiter', 'jacvec', 'solve_linear', 'apply_linear') and \
+                        info['api'] != 'run_driver':
+                    acc.count('obs:errpath-fault-inside-per-seed-solve')
+            elif eb is not None:
+                # the enabled twin never reached the n-th call of the hook (it makes fewer calls): no fault there
+                acc.count('obs:errpath-fault-only-in-disabled-twin')
+            elif ea is not None:
+                bad.append((exc_key('fault-step-raises-only-with-relevance', ea),
+                            'the step with the injected fault raises only with relevance enabled: %r' % (ea,)))
+                stop = 'viol'
+                break
+            else:
+                acc.count('obs:errpath-fault-not-triggered')
+                if op == 'run_driver':
+                    for tw, r in (('on', a), ('off', b)):
+                        for x, v in r['driver']['x'].items():
+                            pt[tw][x] = np.array(v, float)
+            continue
+        if isinstance(ea, WorkBudgetExceeded) or isinstance(eb, WorkBudgetExceeded):
+            stop = 'work-budget-exceeded (nested iterative solvers looping to maxiter)'
+            break
+        if ea is not None and eb is not None:
+            stop = 'both-twins-raise' if type(ea) is type(eb) else 'both-twins-raise-differently'
+            if os.environ.get('OMV_DEBUG'):
+                print('both raise', case, tags, st, repr(ea)[:300], file=sys.stderr)
+            break
+        if eb is not None:
+            stop = 'only-disabled-twin-raises'
+            break
+        if ea is not None:
+            bad.append((exc_key('raises-only-with-relevance:%s' % (st.get('api') or op), ea),
+                        'step %d (%s) raises only with relevance enabled: %s: %s' % (i, st.get('api') or op,
+                                                                                   type(ea).__name__, str(ea)[:200])))
+            stop = 'viol'
+            break
+        if a is None and b is None and op in ('values', 'totals', 'run_driver'):
+            break
+        if off['nfail'][i]:
+            stop = 'solver-nonconvergence'
+            break
+        if on['nfail'][i]:
+            fl = on['failures'][sum(on['nfail'][:i]):sum(on['nfail'][:i + 1])]
+            fc = _fail_class(fl, on.get('src2spec', {}), dep)
+            bad.append(('SOLVERFAIL|%s|%s' % (fc, '+'.join(sorted(set(f[0] for f in fl)))),
+                        '%d solver failure report(s) in step %d (%s) with relevance enabled, none with relevance '
+                        'disabled: %s' % (len(fl), i, st.get('api') or op, fl[0][1][:160])))
+        if op == 'point':
+            for tw in ('on', 'off'):
+                for n, v in s['points'][st['k']].items():
+                    if st['only'] is None or n in st['only']:
+                        pt[tw][n] = np.array(v, float)
+        elif op == 'values':
+            ref_on, _, _ = H.hist_eval(s, pt['on'])
+            ref_off, _, _ = H.hist_eval(s, pt['off'])
+            eoff = max(_relerr(b['values'][n], ref_off[n]) for n in ref_off)
+            if eoff > HIST_TOL_VAL:
+                stop = 'baseline-differs-from-reference'
+                if os.environ.get('OMV_DEBUG'):
+                    print('baseline values differ', case, tags, i, eoff, file=sys.stderr)
+                break
+            acc.count('obs:values-on-vs-off')
+            judged_steps += 1
+            if after_fault:
+                acc.count('obs:errpath-values-after-fault')
+            worst = [(n, _relerr(a['values'][n], ref_on[n])) for n in ref_on]
+            worst = [(n, e) for n, e in worst if e > HIST_TOL_VAL]
+            if worst:
+                n, e = max(worst, key=lambda t: t[1])
+                bad.append(('stale-outputs-after-run_model', 'step %d: %d variable(s) are not the model\'s values at '
+                            'the current point (worst %s: rel %.2e); the disabled twin is right'
+                            % (i, len(worst), n, e)))
+        elif op == 'totals':
+            n_tot += 1
+            wn = [w['name'] for w in st['wrt']]
+            _, jon, nzon = H.hist_eval(s, pt['on'], total_wrt=wn)
+            _, joff, nzoff = H.hist_eval(s, pt['off'], total_wrt=wn)
+            Jr_on = H.hist_totals(s, jon, st['of'], st['wrt'])
+            Jr_off = H.hist_totals(s, joff, st['of'], st['wrt'])
+            # per-row allowance for the round-off of finite differences (noise bound of the reference model)
+            rows = np.concatenate([np.full(len(o['idx']) if o['idx'] is not None else s['sizes'][o['name']],
+                                           max(nzon[o['name']], nzoff[o['name']])) for o in st['of']])[:, None]
+            Ja, Jb = np.asarray(a['J'], float), np.asarray(b['J'], float)
+            if Ja.shape != Jr_on.shape or Jb.shape != Jr_off.shape:
+                if Jb.shape != Jr_off.shape:
+                    stop = 'baseline-differs-from-reference'
+                    break
+                bad.append(('wrong-totals-%s:shape' % st['api'], 'step %d: shape %s, expected %s'
+                            % (i, Ja.shape, Jr_on.shape)))
+                continue
+            with np.errstate(invalid='ignore'):
+                Eoff = np.abs(Jb - Jr_off) - 10.0 * rows
+            if not np.all(np.isfinite(Jb)) or np.max(Eoff) > TOL_REF * max(1.0, np.max(np.abs(Jr_off))):
+                stop = 'baseline-differs-from-reference'
+                if os.environ.get('OMV_DEBUG'):
+                    print('baseline totals differ', case, tags, i, st['api'], np.max(Eoff), file=sys.stderr)
+                break
+            acc.count('obs:totals-on-vs-off')
+            acc.count('obs:totals-vs-reference')
+            judged_steps += 1
+            if cls == 'seq':
+                acc.count('obs:seq-requests')
+                acc.count('cell:seq-api=%s' % st['api'])
+            elif after_fault:
+                acc.count('obs:errpath-totals-after-fault')
+            with np.errstate(invalid='ignore'):
+                Eon = np.abs(Ja - Jr_on) - 10.0 * rows
+                Epair = np.abs(Ja - Jb) - 20.0 * rows
+            same_pt = all(np.array_equal(pt['on'][x], pt['off'][x]) for x in s['xs'])
+            wrong = (not np.all(np.isfinite(Ja))) or np.max(Eon) > TOL_REF * max(1.0, np.max(np.abs(Jr_on))) or \
+                (same_pt and np.max(Epair) > tol_pair * max(1.0, np.max(np.abs(Jb))))
+            if wrong:
+                with np.errstate(invalid='ignore'):
+                    D = ~np.isfinite(Ja) | (Eon > TOL_REF * max(1.0, np.max(np.abs(Jr_on))))
+                mask = Jr_on != 0.0
+                where = '+'.join(w for w, mm in (('dependent-entries', np.any(D & mask)),
+                                                 ('zero-entries', np.any(D & ~mask))) if mm) or 'entries'
+                pos = 'first-request' if n_tot == 1 else 'later-request'
+                what = 'wrong-totals-%s:%s' % (st['api'], where)
+                if cls == 'seq':
+                    what += ':' + pos
+                bad.append((what, 'step %d: totals (%s, of=%s wrt=%s) differ from the closed form (max abs %.3e) / '
+                            'the disabled twin (max abs %.3e)' % (i, st['api'], [o['name'] for o in st['of']], wn,
+                                                                  float(np.nanmax(np.abs(Ja - Jr_on))),
+                                                                  float(np.nanmax(np.abs(Ja - Jb))))))
+        elif op == 'run_driver':
+            da, db = a['driver'], b['driver']
+            for tw, r in (('on', da), ('off', db)):
+                for x, v in r['x'].items():
+                    pt[tw][x] = np.array(v, float)
+
+            def stationarity(p):
+                _, jx, _ = H.hist_eval(s, p, exact_all=True)
+                obj = [r for r in s['resps'] if r['kind'] == 'obj'][0]
+                g = H.hist_totals(s, jx, [obj], s['dvs'])[0]
+                z = np.concatenate([np.asarray(p[d['name']])[d['idx'] if d['idx'] is not None else slice(None)]
+                                    for d in s['dvs']])
+                free = ~(((z >= 3.0 - 1e-7) & (g < 0)) | ((z <= -3.0 + 1e-7) & (g > 0)))
+                return float(np.max(np.abs(g[free]))) if free.any() else 0.0, z
+            goff, zoff = stationarity(pt['off'])
+            if not db['success'] or goff > 1e-5:
+                stop = 'baseline-optimizer-not-certified'
+                break
+            acc.count('obs:hist-opt-twins')
+            acc.count('obs:opt-vs-exact-optimum')
+            judged_steps += 1
+            gon, zon = stationarity(pt['on'])
+            if _relerr(zon, zoff) > 1e-4:
+                if gon <= 1e-4:
+                    acc.count('obs:hist-opt-other-stationary-point')
+                else:
+                    bad.append(('optimizer-result', 'step %d: final design differs from the disabled twin\'s (a '
+                                'stationary point of the closed-form model): rel %.2e; gradient of the closed-form '
+                                'objective there %.2e (%s)' % (i, _relerr(zon, zoff), gon,
+                                                               'success' if da['success'] else 'reports failure')))
+    # ---- what was observed ---------------------------------------------------------------------------
+    if stop and stop != 'viol' and not bad:
+        acc.skip(stop)
+        return
+    acc.count('obs:hist-twins')
+    acc.count('obs:hist-%s-twins' % cls)
+    ps, pv = on['pruned']
+    acc.count('obs:systems-pruned', ps)
+    acc.count('obs:vars-pruned', pv)
+    acc.count('obs:linearize-calls-saved', max(0, off['calls'].total('linearize') - on['calls'].total('linearize')))
+    acc.count('cell:hist-mode=%s' % s['mode'])
+    acc.count('cell:hist-root-ln=%s' % s['root']['ln'])
+    for u in units:
+        acc.count('obs:hist-approx-unit:%s' % u)
+    for g in H.iter_groups(s):
+        if g.get('approx') and g['name']:
+            acc.count('cell:hist-approx-group-depth=%d' % (2 if g['name'] == 'gaa' else 1))
+    if s['cycle']:
+        acc.count('obs:hist-cycle')
+    if cls == 'seq':
+        acc.count('cell:seq-first=%s' % info['first'])
+    else:
+        acc.count('cell:errpath-moved=%s' % info['moved'])
+        if info.get('warmup'):
+            acc.count('obs:errpath-fault-not-in-first-derivative-computation')
+    if bad:
+        first = True
+        for what, msg in bad[:4]:
+            if what.startswith('SOLVERFAIL|'):
+                w = what.split('|')
+                key = '%s:solver-fails-only-with-relevance:hist-%s:%s' % (w[1], cls, w[2])
+            else:
+                key = KEY(what)
+            acc.viol(key, msg + ' [%s; %s; %d systems pruned]' % (','.join(tags), json.dumps(info, sort_keys=True), ps),
+                     case, new_case=first)
+            first = False
+    else:
+        acc.ok(fingerprint([tags, sorted(info.items()), [(st['op'], st.get('api')) for st in steps]]),
+               nontrivial=(ps + pv) > 0 and judged_steps > 0,
+               sample={'seed': case['seed'], 'kind': 'hist', 'cls': cls, 'tags': tags, 'info': info,
+                       'steps': [st.get('api') or st['op'] for st in steps], 'systems_pruned': ps})
 
 
 # =====================================================================================================
